@@ -116,6 +116,11 @@ pub struct RunDesc {
     pub ops: Vec<Op>,
     #[serde(default, skip_serializing_if = "Option::is_none")]
     pub variant: Option<Variant>,
+    /// the schemas come from outside the generator's fragment (repository
+    /// fixtures): the reference model makes no prediction about acceptance of
+    /// defaults (I9) or about where Boxes may appear (I8)
+    #[serde(default)]
+    pub model_off: bool,
 }
 
 impl RunDesc {
